@@ -243,11 +243,13 @@ structure EnvSpec where
   vals : List (List Nat) := []     -- per external input: the values offered, cyclic
   idel : List (List Nat) := []     -- per external input: idle ticks before each offer, cyclic
   odel : List (List Nat) := []     -- per external output: ticks between valid seen and acknowledge, cyclic
+  ihold : List (List Nat) := []    -- per external input: ticks valid is held after received rose, cyclic
+  orel : List (List Nat) := []     -- per external output: ticks received is held after valid fell, cyclic
 deriving Repr, Inhabited
 
 structure InPort where
   idx : Nat := 0
-  ph : Nat := 0        -- 0 idle, 1 offering, 2 waiting for received to drop
+  ph : Nat := 0        -- 0 idle, 1 offering, 3 holding valid after received, 2 waiting for received to drop
   cnt : Nat := 0
   data : Nat := 0
   valid : Bool := false
@@ -255,7 +257,7 @@ deriving DecidableEq, Repr, Inhabited
 
 structure OutPort where
   idx : Nat := 0
-  ph : Nat := 0        -- 0 idle, 1 stalling before the acknowledge, 2 acknowledged
+  ph : Nat := 0        -- 0 idle, 1 stalling before the acknowledge, 2 acknowledged, 3 holding received after valid fell
   cnt : Nat := 0
   recv : Bool := false
   stream : List Nat := []     -- delivered values, newest first
@@ -272,28 +274,43 @@ def envInit (spec : EnvSpec) (ni no : Nat) : EnvSt :=
   { ins := (List.range ni).map fun k => { cnt := cyc (spec.idel.getD k []) 0 }
     outs := (List.range no).map fun _ => {} }
 
-def inStep (vals idel : List Nat) (p : InPort) (recv : Bool) : InPort :=
+def inStep (vals idel ihold : List Nat) (p : InPort) (recv : Bool) : InPort :=
   if p.ph = 0 then
     if vals.length = 0 then p
     else if p.cnt > 0 then { p with cnt := p.cnt - 1 }
     else { p with data := cyc vals p.idx, valid := true, ph := 1 }
   else if p.ph = 1 then
-    if recv then { p with valid := false, ph := 2 } else p
+    if recv then
+      -- slow release: valid is held `ihold` more ticks after received rose
+      (if cyc ihold p.idx = 0 then { p with valid := false, ph := 2 }
+       else { p with cnt := cyc ihold p.idx - 1, ph := 3 })
+    else p
+  else if p.ph = 3 then
+    if p.cnt > 0 then { p with cnt := p.cnt - 1 } else { p with valid := false, ph := 2 }
   else
     if !recv then { p with idx := p.idx + 1, cnt := cyc idel (p.idx + 1), ph := 0 } else p
 
-def outStep (odel : List Nat) (p : OutPort) (data : Nat) (valid : Bool) : OutPort :=
+def outStep (odel orel : List Nat) (p : OutPort) (data : Nat) (valid : Bool) : OutPort :=
   if p.ph = 0 then
     if valid then { p with cnt := cyc odel p.idx, ph := 1 } else p
   else if p.ph = 1 then
     if p.cnt > 0 then { p with cnt := p.cnt - 1 }
     else { p with recv := true, stream := data :: p.stream, idx := p.idx + 1, ph := 2 }
+  else if p.ph = 2 then
+    if !valid then
+      -- slow release: received is held `orel` more ticks after valid fell (`idx` already counts
+      -- the value just delivered)
+      (if cyc orel (p.idx - 1) = 0 then { p with recv := false, ph := 0 }
+       else { p with cnt := cyc orel (p.idx - 1) - 1, ph := 3 })
+    else p
   else
-    if !valid then { p with recv := false, ph := 0 } else p
+    if p.cnt > 0 then { p with cnt := p.cnt - 1 } else { p with recv := false, ph := 0 }
 
 def envStep (spec : EnvSpec) (st : EnvSt) (obs : EnvOut) : EnvSt :=
-  { ins := st.ins.zipIdx.map fun (p, k) => inStep (spec.vals.getD k []) (spec.idel.getD k []) p (obs.inRecv.getD k false)
-    outs := st.outs.zipIdx.map fun (p, k) => outStep (spec.odel.getD k []) p (obs.outRegs.getD k 0) (obs.outValid.getD k false) }
+  { ins := st.ins.zipIdx.map fun (p, k) =>
+      inStep (spec.vals.getD k []) (spec.idel.getD k []) (spec.ihold.getD k []) p (obs.inRecv.getD k false)
+    outs := st.outs.zipIdx.map fun (p, k) =>
+      outStep (spec.odel.getD k []) (spec.orel.getD k []) p (obs.outRegs.getD k 0) (obs.outValid.getD k false) }
 
 def envDrive (st : EnvSt) : EnvIn :=
   { inRegs := st.ins.map (·.data), inValid := st.ins.map (·.valid), outRecv := st.outs.map (·.recv) }
